@@ -121,7 +121,7 @@ PROPS = {
         'assumptions': COMMON_ASSUME,
     },
     'C10': {
-        'props': ['theories/Props/C10.v'], 'deps': VERIFY_DEPS,
+        'props': ['theories/Props/C10.v'], 'deps': VERIFY_DEPS + ['theories/Theory/WriterFacts.v', 'theories/Theory/Segments.v', 'theories/Theory/FileRoundTripFull.v'],
         'streams': ['l3-validate', 'l2-tags', 'l5-props'],
         'trusted_base': GOV_TB,
         'assumptions': COMMON_ASSUME,
